@@ -101,7 +101,7 @@ def run(ctx):
 
 MANIFEST = {
     "category": "proof",
-    "technique": "exhaustive decision table of Backoff::increment/reset/new by forking abstract interpretation (order domain relative to max_value)",
+    "technique": "exhaustive decision table of Backoff::increment/reset/new by forking abstract interpretation (order domain relative to max_value); every row consults the reset interval",
     "text": "Proof of the table clause: for every relation of the entry value to max_value and of elapsed time to the reset interval, the stored delay after increment is bounded by max_value and resets to initial_value when due. Falls back to level other while a finding is open.",
     "note": "Trusted: rustc MIR, driver, abstract interpreter; Duration ordering; assumption initial_value <= max_value.",
 }
